@@ -60,7 +60,7 @@ Definition cfl_text (fence : Z) (st : Z * Z * Z) (c : Z) : Z * Z * Z :=
   if c =? 32 then
     if state =? -1 then (let indent := indent + 1 in if 4 <=? indent then (0, indent, minFence) else (state, indent, minFence))
     else (state, indent, minFence)
-  else if c =? 10 then ((-1), indent, if minFence <? state then state else minFence)
+  else if c =? 10 then ((-1), 0, if minFence <? state then state else minFence)
   else if c =? fence then (if state <? 0 then (1, indent, minFence) else if 0 <? state then (state + 1, indent, minFence) else (state, indent, minFence))
   else (0, indent, minFence).
 Definition codeFenceLength (src : bytes) (b : block) : Z :=
@@ -69,7 +69,7 @@ Definition codeFenceLength (src : bytes) (b : block) : Z :=
     fold_left (fun st i =>
       let '(state, indent, minFence) := st in
       if ikind i =? TextKind then fold_left (cfl_text fence) (spanOf src i) st
-      else if (ikind i =? SoftLineBreakKind) || (ikind i =? HardLineBreakKind) then ((-1), indent, if minFence <? state then state else minFence)
+      else if (ikind i =? SoftLineBreakKind) || (ikind i =? HardLineBreakKind) then ((-1), 0, if minFence <? state then state else minFence)
       else if ikind i =? IndentKind then
         (if state =? -1 then (let indent := indent + iindent i in if 4 <=? indent then (0, indent, minFence) else (state, indent, minFence)) else st)
       else st) (bik b) ((-1), 0, 2) in
